@@ -345,6 +345,7 @@ struct Gen {
     if (op == OP_M_ALIAS) s.op.c = (uint8_t)rng.below(AL__N);
     if (op == OP_M_SUBVIEW_WRITE) s.op.c = (uint8_t)rng.below(3);
     if (op == OP_M_COEFFWRITE || op == OP_TM_COEFFWRITE) s.op.variant = (uint8_t)rng.below(3);
+    if (op == OP_M_MOVE_ASSIGN && rng.chance(0.5)) s.op.variant |= V_ALT;
     s.op.ka = (uint8_t)rng.below(3);
     s.op.kb = (uint8_t)rng.below(3);
     if (inf.cls == C_MUT_E || inf.cls == C_MUT_T) s.op.ka = (uint8_t)rng.below(2);
@@ -418,12 +419,14 @@ struct Gen {
       const GroupVT* vt = vts[g];
       for (int i = 0; i < vt->NE; ++i) {
         ElemSpec sp; sp.neg_hemisphere = rng.chance(0.3); sp.lin_lo = 1e-2; sp.lin_hi = 10;
-        if (rng.chance(0.15)) sp.angle = std::fabs(rng.logmag(1e-10, 1e-5));
+        if (rng.chance(0.25)) sp.angle = rng.chance(0.3) ? 0.0 : std::fabs(rng.logmag(1e-10, 1e-5));
+        if (i == 5) sp.angle = rng.chance(0.5) ? 0.0 : std::fabs(rng.logmag(1e-12, 1e-8));   // identity-like element for the sandwiches
         double c[32]; gen_elem(vt, rng, sp, c);
         plan.steps.push_back(make_set(ST_SETE, g, i, c, vt->rep));
       }
       for (int i = 0; i < vt->NT; ++i) {
         TanSpec sp; sp.angle = rng.chance(0.25) ? std::fabs(rng.logmag(1e-10, 1e-6)) : rng.uniform(0.01, 3); sp.lin_lo = 1e-2; sp.lin_hi = 5;
+        if (i == 3) { sp.angle = rng.chance(0.5) ? 0.0 : std::fabs(rng.logmag(1e-12, 1e-8)); }            // tiny tangent for the sandwiches
         double t[32]; gen_tan(vt, rng, sp, t);
         plan.steps.push_back(make_set(ST_SETT, g, i, t, vt->dof));
       }
@@ -454,6 +457,22 @@ struct Gen {
     int squarings = 0;
     for (int i = 0; i < hl; ++i) {
       int g = (int)rng.below(ngr);
+      if (rng.chance(0.3) && !probes.empty()) {
+        // the same operation as one of the probes, with the same requested outputs, on other operands:
+        // what a cache keyed on "last argument" or a scratch variable shared between calls would need
+        Step s = probes[rng.below((uint32_t)probes.size())];
+        const OpInfo& inf = op_info(s.op.op);
+        const GroupVT* vt = vts[s.group];
+        s.op.thread = R_HIST;
+        s.op.a = (uint8_t)rng.below((inf.cls == C_TAN) ? 4 : 6);
+        if (inf.cls == C_STATIC && (s.op.op == OP_VEE || s.op.op == OP_BRACKET_S)) s.op.a = (uint8_t)rng.below(4);
+        if (inf.arg2 == A_ELEM) s.op.b = (uint8_t)rng.below(6);
+        if (inf.arg2 == A_TAN || s.op.op == OP_BRACKET_S) s.op.b = (uint8_t)rng.below(4);
+        if (inf.arg2 == A_PT) s.op.b = (uint8_t)rng.below(vt->NP);
+        if (s.op.op == OP_GENERATOR || s.op.op == OP_T_GENERATOR_M) s.op.c = (uint8_t)rng.below(vt->dof);
+        seq.push_back(s);
+        continue;
+      }
       seq.push_back(rng.chance(0.08) ? rejected(g) : hist(g, squarings));
     }
     for (int rep = 0; rep < 2; ++rep)
@@ -461,6 +480,18 @@ struct Gen {
         size_t pos = seq.empty() ? 0 : rng.below((uint32_t)seq.size() + 1);
         seq.insert(seq.begin() + pos, p);
       }
+    // sandwiches: probe, the same call on an identity-like / tiny operand (a different branch of the same
+    // code, same requested outputs, same storage kind), probe again
+    for (const Step& p : probes) {
+      if (!rng.chance(0.5)) continue;
+      const OpInfo& inf = op_info(p.op.op);
+      Step mid = p; mid.op.thread = R_HIST;
+      if (inf.cls == C_ELEM) mid.op.a = 5; else if (inf.cls == C_TAN) mid.op.a = 3; else continue;
+      if (rng.chance(0.3)) { if (inf.arg2 == A_ELEM) mid.op.b = 5; if (inf.arg2 == A_TAN) mid.op.b = 3; }
+      size_t pos = seq.empty() ? 0 : rng.below((uint32_t)seq.size() + 1);
+      Step trio[3] = {p, mid, p};
+      seq.insert(seq.begin() + pos, trio, trio + 3);
+    }
     for (const Step& s : seq) plan.steps.push_back(s);
     plan.set("hist_len", hl);
   }
@@ -507,6 +538,7 @@ void run_c09(const RunOpts& o, Result& res) {
   if (o.replay) plan = *o.replay;
   else { Gen g(o.seed); g.generate(o.seed, o.thorough); plan = g.plan; }
   if (o.record) *o.record = plan;
+  if (o.dry) { res.str["dry"] = "1"; return; }
 
   ChildOut co[3];
   const char roles[3] = {'A', 'B', 'C'};
